@@ -192,16 +192,71 @@ pub fn from_twos_complement(bytes: &[u8]) -> Option<i128> {
 // ------------------------------------------------------------------ encoder
 
 /// How to lay out the parts of the encoding the spec leaves free
+#[derive(Clone, Copy, Debug, PartialEq, Eq)]
+pub enum MarkKind {
+	Bool,
+	/// varint holding a string length; `end` is the end of the varint
+	StrLen,
+	/// payload bytes of a string
+	StrPayload,
+	BytesLen,
+	UnionIndex,
+	EnumIndex,
+	BlockCount,
+	BlockSize,
+	Int,
+	Long,
+}
+#[derive(Clone, Copy, Debug)]
+pub struct Mark {
+	pub kind: MarkKind,
+	pub start: usize,
+	pub end: usize,
+	/// number of branches / symbols for index marks
+	pub n: usize,
+}
+
 pub struct Layout<'a> {
 	pub rng: Option<&'a mut Rng>,
+	pub marks: Vec<Mark>,
+	/// pad varints to over-long encodings with this probability (/16); 0 for spec-valid output
+	pub overlong: u32,
 }
 impl<'a> Layout<'a> {
 	/// single positive-count block per non-empty collection, minimal decimals
 	pub fn canonical() -> Layout<'static> {
-		Layout { rng: None }
+		Layout {
+			rng: None,
+			marks: Vec::new(),
+			overlong: 0,
+		}
 	}
 	pub fn random(rng: &'a mut Rng) -> Self {
-		Layout { rng: Some(rng) }
+		Layout {
+			rng: Some(rng),
+			marks: Vec::new(),
+			overlong: 0,
+		}
+	}
+	fn mark(&mut self, kind: MarkKind, start: usize, end: usize, n: usize) {
+		self.marks.push(Mark { kind, start, end, n });
+	}
+	/// write a long, possibly over-long when `overlong` is set
+	fn long(&mut self, n: i64, out: &mut Vec<u8>) {
+		if self.overlong > 0 {
+			if let Some(r) = &mut self.rng {
+				if r.chance(self.overlong, 16) {
+					let mut tmp = Vec::new();
+					put_long(n, &mut tmp);
+					let len = (tmp.len() + 1 + r.below(3)).min(10);
+					if len > tmp.len() {
+						put_long_padded(n, len, out);
+						return;
+					}
+				}
+			}
+		}
+		put_long(n, out)
 	}
 }
 
@@ -212,22 +267,42 @@ pub fn encode(s: &RSchema, id: Id, v: &Val, lay: &mut Layout, out: &mut Vec<u8>)
 	let bad = |what: &str| Err(EncodeError(format!("value {:?} does not conform to node {id} ({what})", v.to_json())));
 	match (s.eff(id), v) {
 		(Eff::Null, Val::Null) => {}
-		(Eff::Boolean, Val::Bool(b)) => out.push(*b as u8),
-		(Eff::Int, Val::Int(i)) => put_long(*i as i64, out),
-		(Eff::Long, Val::Long(i)) => put_long(*i, out),
+		(Eff::Boolean, Val::Bool(b)) => {
+			lay.mark(MarkKind::Bool, out.len(), out.len() + 1, 0);
+			out.push(*b as u8)
+		}
+		(Eff::Int, Val::Int(i)) => {
+			let st = out.len();
+			lay.long(*i as i64, out);
+			lay.mark(MarkKind::Int, st, out.len(), 0);
+		}
+		(Eff::Long, Val::Long(i)) => {
+			let st = out.len();
+			lay.long(*i, out);
+			lay.mark(MarkKind::Long, st, out.len(), 0);
+		}
 		(Eff::Float, Val::Float(b)) => out.extend_from_slice(&b.to_le_bytes()),
 		(Eff::Double, Val::Double(b)) => out.extend_from_slice(&b.to_le_bytes()),
 		(Eff::Bytes, Val::Bytes(b)) => {
-			put_long(b.len() as i64, out);
+			let s0 = out.len();
+			lay.long(b.len() as i64, out);
+			lay.mark(MarkKind::BytesLen, s0, out.len(), 0);
 			out.extend_from_slice(b);
 		}
 		(Eff::String, Val::Str(st)) => {
-			put_long(st.len() as i64, out);
+			let s0 = out.len();
+			lay.long(st.len() as i64, out);
+			lay.mark(MarkKind::StrLen, s0, out.len(), 0);
+			lay.mark(MarkKind::StrPayload, out.len(), out.len() + st.len(), 0);
 			out.extend_from_slice(st.as_bytes());
 		}
 		(Eff::Fixed(n), Val::Fixed(b)) if b.len() == n => out.extend_from_slice(b),
 		(Eff::Enum, Val::Enum(i)) => match &s.node(id).kind {
-			Kind::Enum { symbols, .. } if *i < symbols.len() => put_long(*i as i64, out),
+			Kind::Enum { symbols, .. } if *i < symbols.len() => {
+				let s0 = out.len();
+				lay.long(*i as i64, out);
+				lay.mark(MarkKind::EnumIndex, s0, out.len(), symbols.len());
+			}
 			_ => return bad("enum index"),
 		},
 		(Eff::Array(item), Val::Array(items)) => {
@@ -241,13 +316,18 @@ pub fn encode(s: &RSchema, id: Id, v: &Val, lay: &mut Layout, out: &mut Vec<u8>)
 		(Eff::Map(item), Val::Map(entries)) => {
 			encode_blocks(entries.len(), lay, out, &mut |k, lay, out| {
 				let (key, val) = &entries[k];
-				put_long(key.len() as i64, out);
+				let s0 = out.len();
+				lay.long(key.len() as i64, out);
+				lay.mark(MarkKind::StrLen, s0, out.len(), 0);
+				lay.mark(MarkKind::StrPayload, out.len(), out.len() + key.len(), 0);
 				out.extend_from_slice(key.as_bytes());
 				encode(s, item, val, lay, out)
 			})?;
 		}
 		(Eff::Union(branches), Val::Union(i, inner)) if *i < branches.len() => {
-			put_long(*i as i64, out);
+			let s0 = out.len();
+			lay.long(*i as i64, out);
+			lay.mark(MarkKind::UnionIndex, s0, out.len(), branches.len());
 			encode(s, branches[*i], inner, lay, out)?;
 		}
 		(Eff::Record, Val::Record(vals)) => match &s.node(id).kind {
@@ -333,15 +413,28 @@ fn encode_blocks(
 	for (take, negative) in cuts.into_iter().zip(neg) {
 		if negative {
 			let mut body = Vec::new();
+			let marks_before = lay.marks.len();
 			for _ in 0..take {
 				item(k, lay, &mut body)?;
 				k += 1;
 			}
-			put_long(-(take as i64), out);
-			put_long(body.len() as i64, out);
+			let s0 = out.len();
+			lay.long(-(take as i64), out);
+			let s1 = out.len();
+			lay.long(body.len() as i64, out);
+			let s2 = out.len();
+			// marks recorded while encoding the body are relative to it
+			for m in &mut lay.marks[marks_before..] {
+				m.start += s2;
+				m.end += s2;
+			}
+			lay.mark(MarkKind::BlockCount, s0, s1, 0);
+			lay.mark(MarkKind::BlockSize, s1, s2, body.len());
 			out.extend_from_slice(&body);
 		} else {
-			put_long(take as i64, out);
+			let s0 = out.len();
+			lay.long(take as i64, out);
+			lay.mark(MarkKind::BlockCount, s0, out.len(), 0);
 			for _ in 0..take {
 				item(k, lay, out)?;
 				k += 1;
